@@ -74,6 +74,22 @@ def build_cli():
                  os.path.join(TARGET, "cli")], REPO, "numbat-cli")
 
 
+def build_miri():
+    """nbserve for the Miri interpreter (nightly toolchain); the tiny run only forces the build"""
+    env = dict(ENV, MIRIFLAGS="-Zmiri-disable-isolation")
+    t0 = time.time()
+    r = subprocess.run(["cargo", "+nightly", "miri", "run", "--offline", "--target-dir", os.path.join(TARGET, "miri")]
+                       + _paths_override() + ["--", "listcheck", "1", "1"],
+                       cwd=os.path.join(VERIF, "server"), env=env, stdout=subprocess.PIPE, stderr=subprocess.STDOUT,
+                       text=True, timeout=3600)
+    if r.returncode != 0:
+        print("BUILD FAILED (miri):\n" + "\n".join(r.stdout.splitlines()[-40:]))
+        return False
+    if time.time() - t0 > 5:
+        print(f"[build] nbserve[miri]: {time.time() - t0:.0f}s")
+    return True
+
+
 def build(needs):
     ok = True
     for n in needs:
@@ -83,4 +99,6 @@ def build(needs):
             ok = ok and build_server("fast")
         elif n == "cli":
             ok = ok and build_cli()
+        elif n == "miri":
+            ok = ok and build_miri()
     return ok
